@@ -394,9 +394,54 @@ func (fr *Frame) loopModifies(li *loopInfo) *loopMods {
 	sort.Slice(blocks, func(i, j int) bool { return blocks[i].Index < blocks[j].Index })
 	// ghost variables updated by a gate (`reach ... then ghost.x = e`) may be
 	// updated inside any loop of the function
-	if fr.contract != nil {
-		for _, rc := range fr.contract.Reach {
-			if rc.SetName != "" {
+	if gc := fr.gateContract(); gc != nil {
+		// precise when the loop body is plain code: only the gates whose
+		// statement (or callee) occurs in the body; conservative (all of them)
+		// when the body creates closures or runs callees in place
+		conservative := false
+		texts := map[string]bool{}
+		for _, b := range blocks {
+			for _, ins := range b.Instrs {
+				switch t := ins.(type) {
+				case *ssa.MakeClosure:
+					conservative = true
+				case ssa.CallInstruction:
+					cc := t.Common()
+					if n := lastCallName(cc); n != "" {
+						texts["call:"+n] = true
+						texts["callname:"+n] = true
+					}
+					if sf := cc.StaticCallee(); !cc.IsInvoke() && (sf == nil || (sf.Blocks != nil && x.w.contractFor(sf) == nil)) {
+						conservative = true
+					}
+				}
+				if p := ins.Pos(); p.IsValid() {
+					if txt := normText(x.w.stmtTextAt(p)); txt != "" {
+						texts[txt] = true
+					}
+				}
+			}
+		}
+		for _, rc := range gc.Reach {
+			if rc.SetName == "" {
+				continue
+			}
+			hit := conservative || texts[rc.Stmt]
+			if !hit && strings.HasPrefix(rc.Stmt, "call:") {
+				// qualified form call:X.Name
+				if i := strings.LastIndex(rc.Stmt, "."); i > 0 && texts["callname:"+rc.Stmt[i+1:]] {
+					hit = true
+				}
+			}
+			if !hit && strings.HasSuffix(rc.Stmt, "...") {
+				pre := strings.TrimSuffix(rc.Stmt, "...")
+				for t := range texts {
+					if strings.HasPrefix(t, pre) {
+						hit = true
+					}
+				}
+			}
+			if hit {
 				if c := x.ghostCell(rc.SetName); c != nil {
 					m.cells[c] = true
 				}
